@@ -1,4 +1,5 @@
 import XfemmVerif.Model.Magnetics
+import XfemmVerif.Model.MSolver
 import XfemmVerif.Properties.C03
 import Mathlib.Tactic.Ring
 import Mathlib.Tactic.FieldSimp
@@ -13,6 +14,10 @@ the current density a circuit applies reproduces the circuit current exactly, fo
 (flat density) and for conducting regions (density proportional to conductivity); the reluctivity
 element matrix `Mx/μ₂ + My/μ₁` is the Galerkin form of the curl–curl operator (through the element
 theorems of C03); the consistent-mass eddy matrix is symmetric with row sums `a/3`.
+The whole first pass of `Static2D` for planar problems (`Model/MSolver.lean`: circuit integrals and cases, element matrices,
+mixed boundary terms, current and magnetisation sources, first-pass permeabilities, accumulation, point currents, prescribed
+potentials through `SetValue`, ties) is compared bit for bit with the system the real solver hands to `PCGSolve`; its
+permeability, circuit and prescription functions are related here to the ones the theorems above are about.
 Decided per run by the independent SI oracle on the real `.ans` (labelled partial): the global
 statement incl. prescribed-A boundaries, magnets, the time-harmonic system and its circuit unknowns.
 -/
@@ -94,5 +99,44 @@ example : lamMu 1 (1/2 : ℚ) 100 100 = (101/2, 200/101) := by
   unfold lamMu; norm_num
 example : (100 : ℚ) * circuitJ (1/100) 5 1 2 * 2 + 1 = 5 := by
   unfold circuitJ; norm_num
+
+
+/-! ### the assembly model of the first pass (`Model/MSolver.lean`, compared bit for bit with the real `FSolver::Static2D`) -/
+section Assembly
+open XfemmVerif.MSolver
+variable {β : Type} [Field β] [DecidableEq β]
+
+/-- the permeabilities the assembly model gives an element are the laminated-material permeabilities proved above -/
+theorem firstPassMu_eq_lamMu (bp : MBlockProp β) :
+    firstPassMu bp = lamMu bp.lamType bp.lamFill bp.mux bp.muy := by
+  unfold firstPassMu lamMu
+  rcases h : bp.lamType with _ | _ | _ | n
+  · simp
+  · simp
+  · simp
+  · simp
+
+/-- a current-driven circuit without conducting regions gets the flat current density `circuitJ` … -/
+theorem circuitCase_flat (c001 : β) (cp : MCirc β) (int1 int3 : β) (ht : cp.typ = 0) (h1 : int1 ≠ 0) :
+    circuitCase c001 cp int1 0 int3 = (1, circuitJ c001 cp.amps int3 int1, 0) := by
+  simp [circuitCase, circuitJ, ht, h1]
+
+/-- … one with conducting regions the voltage gradient `circuitDV`, and the density it induces in a region of conductivity
+    `σ` is `−dV·σ` (so that the theorems `circuit_J_reproduced` / `circuit_dV_reproduced` above apply to the model) -/
+theorem circuitCase_gradient (c001 : β) (cp : MCirc β) (int1 int2 int3 : β) (ht : cp.typ = 0) (h2 : int2 ≠ 0) :
+    circuitCase c001 cp int1 int2 int3 = (0, 0, circuitDV c001 cp.amps int3 int2) := by
+  simp [circuitCase, circuitDV, ht, h2]
+
+/-- a voltage-driven ("parallel") circuit applies its prescribed gradient -/
+theorem circuitCase_voltage (c001 : β) (cp : MCirc β) (int1 int2 int3 : β) (ht : cp.typ ≠ 0) :
+    circuitCase c001 cp int1 int2 int3 = (0, 0, cp.dvolts) := by
+  simp [circuitCase, ht]
+
+/-- the potential prescribed along a segment in cartesian form is `(A0 + A1·x + A2·y)·cos φ` in drawing units, scaled by `1/c` -/
+theorem prescribedA_cartesian (k : MConsts β) (lp : MBdryProp β) (x y : β) :
+    prescribedA k false lp x y = (lp.A0 + x / k.ucm * lp.A1 + y / k.ucm * lp.A2) * k.cos (lp.phi * k.deg) / k.c := by
+  simp [prescribedA]
+
+end Assembly
 
 end XfemmVerif.C05
